@@ -114,6 +114,8 @@ def run_unit(u, tier, root, build):
         res['generated_sha256'] = hashlib.sha256(gen.text.encode()).hexdigest()
         res['trusted'] = _scan_trusted(gen.text + open(os.path.join(u['dir'], 'harness.rs')).read())
     hs = [h for h in u['harnesses'] if tier in h.get('tiers', ['quick', 'thorough'])]
+    # (TTL 20 min: it only lets two properties served by the same unit, e.g. C22/C23, share
+    # one solver run when their checks are invoked back to back; evidence says so)
     # result cache keyed by the exact verifier input (generated text / real crate sources,
     # harnesses, flags, tool): identical input => identical verdict, so only the solver
     # run is skipped; extraction from /repo's working tree still happens on every run.
@@ -126,7 +128,7 @@ def run_unit(u, tier, root, build):
     if os.environ.get('VERIF_NO_CACHE') != '1' and os.path.exists(cpath):
         try:
             c = json.load(open(cpath))
-            if time.time() - c['at'] < 6 * 3600 and not c['res']['failures'] and not c['res']['undecided']:
+            if time.time() - c['at'] < int(os.environ.get('VERIF_CACHE_TTL', '1200')) and not c['res']['failures'] and not c['res']['undecided']:
                 c['res']['cached_result'] = {'key': ckey, 'age_s': int(time.time() - c['at'])}
                 c['res']['wall_s'] = time.time() - t0
                 return c['res']
